@@ -298,3 +298,160 @@ theorem ratio_fee_monotone {p p' rp rf a a' : Int} {r r' : Bool}
   exact isCeilDiv_mono hrp (by nlinarith) hcx hcy
 
 end PvProofs.C19
+
+namespace PvProofs.C19
+open PvModel PvModel.Fees PvProofs
+
+/-! ### Commitment settlement charge -/
+
+theorem ceilDiv_zero {b : Int} (hb : 0 < b) : ceilDiv 0 b = 0 := by
+  have h := ceilDiv_isCeil 0 hb
+  have h0 : IsCeilDiv 0 b 0 := by unfold IsCeilDiv; constructor <;> nlinarith
+  exact isCeilDiv_unique hb h h0
+
+theorem tdiv_roundup_eq_ceilDiv {a b : Int} (ha : 0 ≤ a) (hb : 0 < b) :
+    (if a.tmod b ≠ 0 then a.tdiv b + 1 else a.tdiv b) = ceilDiv a b :=
+  isCeilDiv_unique hb (tdiv_roundup_isCeil ha hb) (ceilDiv_isCeil a hb)
+
+def othersWf (os : List (Int × Int × Int)) : Prop := ∀ o ∈ os, 0 ≤ o.1 ∧ 0 ≤ o.2.1 ∧ 0 < o.2.2
+
+def othersSum (os : List (Int × Int × Int)) : Int := (os.map fun (c, p, a) => (c * p * decOne) / a).sum
+
+theorem othersSum_nonneg (os : List (Int × Int × Int)) (h : othersWf os) : 0 ≤ othersSum os := by
+  induction os with
+  | nil => simp [othersSum]
+  | cons o t ih =>
+    obtain ⟨c, p, a⟩ := o
+    have ho := h (c, p, a) (List.mem_cons_self ..)
+    have ht : othersWf t := fun x hx => h x (List.mem_cons_of_mem _ hx)
+    simp only [othersSum, List.map_cons, List.sum_cons] at *
+    have : 0 ≤ c * p * decOne / a := by
+      apply Int.ediv_nonneg _ (by omega)
+      have : 0 ≤ c * p := Int.mul_nonneg ho.1 ho.2.1
+      exact Int.mul_nonneg this (by decide)
+    have := ih ht
+    omega
+
+/-- step 2 of the charge: every non-fee, non-intermediary input converted at 18 decimals,
+each truncated, summed. -/
+theorem csfOthers_ok {os : List (Int × Int × Int)} {acc r : Int} (hw : othersWf os)
+    (h : csfOthers os acc = .ok r) : r = acc + othersSum os := by
+  induction os generalizing acc with
+  | nil => simp [csfOthers] at h; simp [othersSum, h]
+  | cons o t ih =>
+    obtain ⟨c, p, a⟩ := o
+    have ho := hw (c, p, a) (List.mem_cons_self ..)
+    have ht : othersWf t := fun x hx => hw x (List.mem_cons_of_mem _ hx)
+    simp only [csfOthers] at h
+    split at h
+    · cases h
+    · split at h
+      · cases h
+      · split at h
+        · cases h
+        · have hcp : 0 ≤ c * p * decOne :=
+            Int.mul_nonneg (Int.mul_nonneg ho.1 ho.2.1) (by decide)
+          rw [Int.tdiv_eq_ediv_of_nonneg hcp] at h
+          have := ih ht h
+          simp only [othersSum, List.map_cons, List.sum_cons] at *
+          omega
+
+theorem convRoundUp_ok {d r : Int} (hd : 0 ≤ d) (h : convRoundUp d = .ok r) : r = ceilDiv d decOne := by
+  have hceil := tdiv_roundup_eq_ceilDiv hd (by decide : (0 : Int) < decOne)
+  rw [← hceil]
+  simp only [convRoundUp] at h
+  split at h
+  · cases h
+  · split at h
+    · rename_i hne
+      simp only [add256] at h
+      split at h
+      · cases h; simp [hne]
+      · cases h
+    · rename_i hne
+      cases h; simp [hne]
+
+theorem toFeeDenom_ok {c p a r : Int} (hc : 0 ≤ c) (hp : 0 ≤ p) (ha : 0 < a)
+    (h : toFeeDenom c p a = .ok r) : r = ceilDiv (c * p) a := by
+  simp only [toFeeDenom] at h
+  split at h
+  · rename_i hz; cases h; rw [hz]; simp [ceilDiv_zero ha]
+  · split at h
+    · cases h
+    · split at h
+      · cases h
+      · cases h; exact quoIntRoundUp_eq_ceilDiv (Int.mul_nonneg hc hp) ha
+
+theorem applyBips_ok {t r : Int} {b : Nat} (ht : 0 ≤ t) (h : applyBips t b = .ok r) :
+    r = ceilDiv (t * b) 20000 := by
+  simp only [applyBips] at h
+  split at h
+  · cases h
+  · cases h
+    exact quoIntRoundUp_eq_ceilDiv (Int.mul_nonneg ht (Int.natCast_nonneg _)) (by decide)
+
+/-- The commitment settlement charge, whenever it is computed at all, is exactly the
+documented formula (`csfSpec`): 18-decimal truncating conversion of each input, one round-up
+to a whole intermediary unit, one round-up conversion to the fee denom, then
+`⌈total·bips/20000⌉`; and it is never negative. -/
+theorem commitmentFee_formula (i : CsfIn)
+    (hfee : 0 ≤ i.feeAmt) (hconv : 0 ≤ i.convAmt) (hnavP : 0 ≤ i.navP) (hnavA : 0 < i.navA)
+    (hw : othersWf i.others) {r : Int × Int × Int} (h : commitmentFee i = .ok r) :
+    r = csfSpec i ∧ 0 ≤ r.2.2 := by
+  have hbase : 0 ≤ (if i.sameDenom = true then 0 else i.convAmt * decOne) := by
+    split
+    · omega
+    · exact Int.mul_nonneg hconv (by decide)
+  simp only [commitmentFee] at h
+  generalize hb : (if i.sameDenom = true then 0 else i.convAmt * decOne) = base at h hbase
+  by_cases hfd : (!fitsDec base) = true
+  · simp [hfd] at h
+  · simp only [hfd, if_false] at h
+    cases hcd : csfOthers i.others base with
+    | error e => simp [hcd] at h
+    | ok convDec =>
+      simp only [hcd] at h
+      have hdec := csfOthers_ok hw hcd
+      have hsum := othersSum_nonneg i.others hw
+      have hdec0 : 0 ≤ convDec := by omega
+      cases hci : convRoundUp convDec with
+      | error e => simp [hci] at h
+      | ok convInt =>
+        simp only [hci] at h
+        have hconvEq := convRoundUp_ok hdec0 hci
+        have hci0 : 0 ≤ convInt := by
+          rw [hconvEq]
+          exact isCeilDiv_nonneg (by decide) hdec0 (ceilDiv_isCeil convDec (by decide))
+        cases haf : toFeeDenom convInt i.navP i.navA with
+        | error e => simp [haf] at h
+        | ok asFee =>
+          simp only [haf] at h
+          have hasEq := toFeeDenom_ok hci0 hnavP hnavA haf
+          have has0 : 0 ≤ asFee := by
+            rw [hasEq]
+            exact isCeilDiv_nonneg hnavA (Int.mul_nonneg hci0 hnavP) (ceilDiv_isCeil _ hnavA)
+          by_cases hft : (!fits256 (i.feeAmt + asFee)) = true
+          · simp [hft] at h
+          · simp only [hft, if_false] at h
+            cases hfe : applyBips (i.feeAmt + asFee) i.bips with
+            | error e => simp [hfe] at h
+            | ok fee =>
+              simp only [hfe] at h
+              have hfeeEq := applyBips_ok (by omega : 0 ≤ i.feeAmt + asFee) hfe
+              cases h
+              refine ⟨?_, ?_⟩
+              · simp only [csfSpec, hb]
+                rw [hfeeEq, hasEq, hconvEq, hdec]
+                rfl
+              · show 0 ≤ fee
+                rw [hfeeEq]
+                exact isCeilDiv_nonneg (by decide)
+                  (Int.mul_nonneg (by omega) (Int.natCast_nonneg _)) (ceilDiv_isCeil _ (by decide))
+
+def csfExample : CsfIn :=
+  { feeAmt := 5, convAmt := 10, others := [(7, 3, 2), (1, 1, 3)], navP := 2, navA := 3, bips := 50,
+    sameDenom := false }
+
+example : commitmentFee csfExample = .ok (21, 19, 1) := by decide
+
+end PvProofs.C19
